@@ -18,6 +18,8 @@ pub struct ChanSt {
     pub consumed: usize,
     pub eofs: usize,
     pub wpend: VecDeque<bool>,
+    /// while set, every write returns Pending (the remote does not read); the harness polls by hand
+    pub blocked: bool,
 }
 
 #[derive(Clone)]
@@ -59,6 +61,9 @@ impl AsyncRead for Chan {
 
 impl AsyncWrite for Chan {
     fn poll_write(mut self: Pin<&mut Self>, cx: &mut Context<'_>, buf: &[u8]) -> Poll<io::Result<usize>> {
+        if self.st.lock().unwrap().blocked {
+            return Poll::Pending;
+        }
         let p = self.st.lock().unwrap().wpend.pop_front().unwrap_or(false);
         if p {
             cx.waker().wake_by_ref();
@@ -86,5 +91,8 @@ impl Chan {
     }
     pub fn consumed(&self) -> usize {
         self.st.lock().unwrap().consumed
+    }
+    pub fn set_blocked(&self, b: bool) {
+        self.st.lock().unwrap().blocked = b;
     }
 }
